@@ -22,7 +22,7 @@ package redis
 //@ modifies heap, ghostall(redigo.Conn.$cmds), ghostall(redigo.Conn.$lastCmd), ghostall(redigo.Conn.$flushes), ghostall(redigo.Conn.$lastInt)
 // (the shape of redis' replies — an array of a cursor and an array of keys — is redigo's business: the type assertions
 // and index expressions on the reply are not checked here)
-//@ waive panic bounds index nil assert-type requires
+//@ waive panic bounds index nil assert-type requires overflow
 //@ loop 1 invariant c != nil && called(Conn.Do#1) >= 0 && (called(Conn.Do#1) == 0 ==> iter == 0)
 //@ loop 2 invariant c != nil
 //@ loop 3 invariant c != nil
